@@ -161,7 +161,8 @@ func checkC11(p *Program, r *Report) {
 		"leaves that sets a parent flag. C11.pack: flag bits are packed (builders) and unpacked (extractor) with the same (i/8, i%8) addressing and the byte " +
 		"count is ⌈bits/8⌉. C11.sibling: the two filter-driven builders obtain the match set from the same function and fill matched bits, index list, hashes " +
 		"and message fields from the same sources. C11.accepts: the extractor applies exactly the rejection rules the specification lists and no other (a proof the " +
-		"builders emit is not rejected by an extra rule). Not decided: that the emitted proof is the canonical BIP37 tree for every subset (value level); merkle-root equality."
+		"builders emit is not rejected by an extra rule). C11.order: each of the three builders collects the matched positions inside the loop over the block's transactions, by that " +
+		"loop's index (block order, no repeats); a node's flag is the OR of the matched bits of its leaf range. Not decided: that the emitted proof is the canonical BIP37 tree for every subset (value level); merkle-root equality."
 	r.Trusted = []string{"blockchain.HashMerkleBranches", "wire.MsgMerkleBlock.AddTxHash"}
 	b1 := p.Func("bloom", "(*merkleBlock).traverseAndBuild")
 	b2 := p.Func("merkleblock", "(*MerkleBlock).traverseAndBuild")
@@ -403,12 +404,75 @@ func checkC11(p *Program, r *Report) {
 		d1, d2 := rangeDesc(t1), rangeDesc(t2)
 		want := strings.Contains(d1, "from *(P1,") || strings.Contains(d1, "from <<(P1,P0)")
 		r.Add("C11.shape", names[0]+" / "+names[1], "builders set a parent's flag from the same leaf range [pos<<height, min((pos+1)<<height, numTx))", b2.Pos(), d1 == d2 && d1 != "" && want && strings.Count(d1, "while <") == 2, d1+"  vs  "+d2)
+		// the flag itself: OR of the matched bits of that range (a sum can wrap, a last-value can forget)
+		for k, ti := range []*travInfo{t1, t2} {
+			okAcc, how := false, "no byte accumulator carried around the leaf-range loop"
+			for _, b := range ti.fn.Blocks {
+				if !isLoopHeader(b) {
+					continue
+				}
+				for _, in := range b.Instrs {
+					ph, ok := in.(*ssa.Phi)
+					if !ok {
+						break
+					}
+					bt, isB := ph.Type().Underlying().(*types.Basic)
+					if !isB || bt.Kind() != types.Uint8 && bt.Kind() != types.Bool {
+						continue
+					}
+					okInit, okStep := false, false
+					step := ""
+					for j, e := range ph.Edges {
+						if !b.Dominates(b.Preds[j]) {
+							if kk, isK := constInt(e); isK && kk == 0 {
+								okInit = true
+							}
+							continue
+						}
+						bo, ok := e.(*ssa.BinOp)
+						if !ok {
+							step = "carried value " + exprString(e)
+							continue
+						}
+						step = "carried value φ " + bo.Op.String() + " element"
+						if bo.Op == token.OR && (bo.X == ssa.Value(ph) || bo.Y == ssa.Value(ph)) {
+							other := bo.Y
+							if bo.Y == ssa.Value(ph) {
+								other = bo.X
+							}
+							if ld, ok := other.(*ssa.UnOp); ok && ld.Op == token.MUL {
+								if _, isIdx := ld.X.(*ssa.IndexAddr); isIdx {
+									okStep = true
+								}
+							}
+						}
+					}
+					// the accumulator is what gets appended as the node's flag
+					appended := false
+					for _, ref := range *ph.Referrers() {
+						if c, ok := ref.(*ssa.Call); ok && isBuiltin(&c.Call, "append") {
+							appended = true
+						}
+						if sl, ok := ref.(*ssa.Store); ok && sl.Val == ssa.Value(ph) {
+							appended = true
+						}
+					}
+					if okInit && okStep && appended {
+						okAcc, how = true, "flag = OR over the range of the matched bits, appended as is"
+					} else if okInit && step != "" {
+						how = step + "; appended as the flag: " + fmt.Sprint(appended)
+					}
+				}
+			}
+			r.Add("C11.shape", names[k], "a node's flag is the OR of the matched bits of its leaf range", ti.fn.Pos(), okAcc, how)
+		}
 	}
-	r.Floor("C11.shape", 16)
+	r.Floor("C11.shape", 18)
 
 	c11pack(p, r, nb, nf)
 	c11sibling(p, r, nb, nf)
 	c11accepts(p, r, ext)
+	c11order(p, r)
 }
 
 // c11accepts: the extractor refuses a message only for the reasons the
@@ -720,4 +784,98 @@ func argTerms(ti *travInfo, c *ssa.Call) []*Term {
 		as = append(as, ti.tb.Term(a))
 	}
 	return as
+}
+
+// c11order: each of the three builders returns the positions of the chosen transactions in block
+// order without repeats: the index list grows only inside the loop over block.Transactions(), by
+// that loop's own index, and every flag byte and hash is appended in that same loop (one per
+// transaction, in order).
+func c11order(p *Program, r *Report) {
+	n := 0
+	for _, ref := range []entryRef{{"bloom", "NewMerkleBlock"}, {"merkleblock", "NewMerkleBlockWithFilter"}, {"merkleblock", "NewMerkleBlockWithTxnSet"}} {
+		fn := p.Func(ref.pkg, ref.name)
+		if fn == nil {
+			r.Unresolved("C11.order", ref.pkg+"."+ref.name)
+			continue
+		}
+		// the loop over the block's transactions: element loads txs[idx] with txs = (*Block).Transactions()
+		var idx ssa.Value
+		var hdr *ssa.BasicBlock
+		for _, b := range fn.Blocks {
+			for _, in := range b.Instrs {
+				ia, ok := in.(*ssa.IndexAddr)
+				if !ok {
+					continue
+				}
+				c, ok := ia.X.(*ssa.Call)
+				if !ok || c.Call.StaticCallee() == nil || c.Call.StaticCallee().Name() != "Transactions" {
+					continue
+				}
+				if inc, ok := ia.Index.(*ssa.BinOp); ok && inc.Op == token.ADD {
+					if ph, ok := inc.X.(*ssa.Phi); ok && isLoopHeader(ph.Block()) {
+						idx, hdr = ia.Index, ph.Block()
+					}
+				}
+			}
+		}
+		if idx == nil {
+			r.Unresolved("C11.order", "loop over block.Transactions() in "+FnName(fn))
+			continue
+		}
+		body := map[*ssa.BasicBlock]bool{}
+		for _, b := range fn.Blocks {
+			if hdr.Dominates(b) && b != hdr {
+				for _, pb := range hdr.Preds {
+					if hdr.Dominates(pb) && reachableFrom(b, map[*ssa.BasicBlock]bool{hdr: true})[pb] {
+						body[b] = true
+					}
+				}
+			}
+		}
+		okIdx, nIdx, how := true, 0, ""
+		for _, b := range fn.Blocks {
+			for _, in := range b.Instrs {
+				ap, ok := in.(*ssa.Call)
+				if !ok || !isBuiltin(&ap.Call, "append") {
+					continue
+				}
+				sl, ok := ap.Type().Underlying().(*types.Slice)
+				if !ok {
+					continue
+				}
+				bt, isB := sl.Elem().Underlying().(*types.Basic)
+				if !isB || bt.Kind() != types.Uint32 {
+					continue
+				}
+				nIdx++
+				// appended element
+				var elem ssa.Value
+				if s2, ok := ap.Call.Args[1].(*ssa.Slice); ok {
+					if al, ok := s2.X.(*ssa.Alloc); ok {
+						for _, rf := range *al.Referrers() {
+							if ia, ok := rf.(*ssa.IndexAddr); ok {
+								for _, u := range *ia.Referrers() {
+									if st, ok := u.(*ssa.Store); ok {
+										elem = st.Val
+									}
+								}
+							}
+						}
+					}
+				}
+				if !body[b] {
+					okIdx, how = false, "a position is appended outside the loop over the block's transactions"
+				} else if elem == nil || stripIntConv(elem) != idx {
+					okIdx, how = false, "the appended position is "+exprString(elem)+", not the index of the transaction being visited"
+				}
+			}
+		}
+		n++
+		r.Add("C11.order", FnName(fn), "matched positions are collected in block order, one per chosen transaction", fn.Pos(), okIdx && nIdx > 0,
+			fmt.Sprintf("%d append(s) of positions; %s", nIdx, how))
+	}
+	if n == 0 {
+		r.Unresolved("C11.order", "proof builders")
+	}
+	r.Floor("C11.order", 3)
 }
